@@ -75,6 +75,7 @@ structure St where
   srcsDone : List (List Batch × List (Bytes × List Bytes)) := []   -- completed batch sources (reversed, each reversed)
   oracle : List (Nat × Bytes) := []
   nonUTC : Bool := false
+  file : Bool := false                                 -- recorded into / replayed from a recording file of services/replay
 
 def parseDimTok (t : String) : Option (Bool × List Bytes) :=
   match t.splitOn ":" with
@@ -164,7 +165,7 @@ def judgeStream (st : St) (obs : List String) : Verdict := Id.run do
   -- 2. the tie: model = observed
   let m := streamRoundTrip F mult st.zero st.recTime recorded
   let obsItems : List SOut := items.map (fun it => ⟨it.1, it.2.2.1.getD 0⟩)
-  let mut brs : List String := ["stream"] ++ shiftBr st.recTime st.zero (recorded.head?.map (·.time))
+  let mut brs : List String := ["stream"] ++ (if st.file then ["file-srpl"] else ["io-buffer"]) ++ shiftBr st.recTime st.zero (recorded.head?.map (·.time))
   let exact := m.status == status && m.items == obsItems && m.closes == closes && m.closedAt == closedAt
         && items.all (fun it => it.2.2.1.isSome) && !nonUTC
         && items.all (fun it => it.2.1 == (([] : Bytes), false, ([] : List Bytes)))
@@ -280,7 +281,7 @@ def judgeBatch (st : St) (obs : List String) : Verdict := Id.run do
   let some untils := (tail.head?.bind parseUntils) | return .badop "untils"
   if nsrc != sources.length || srcObs.length != sources.length then return .badop s!"sources {nsrc} {srcObs.length} {sources.length}"
   let mut keys : List String := []
-  let mut brs : List String := ["batch"]
+  let mut brs : List String := ["batch"] ++ (if st.file then ["file-brpl"] else ["io-buffer"])
   let mut mUntils : List Int := []
   let mut i := 0
   for (sg, so) in sources.zip srcObs do
@@ -313,6 +314,13 @@ def judge (_id : String) (lines : Array String) : Verdict := Id.run do
     | ["batch", r, z] =>
       let some z := z.toInt? | return .badop l
       st := { st with mode := "batch", recTime := r == "1", zero := z }
+    | ["stream", r, z, p, "file"] =>
+      let some z := z.toInt? | return .badop l
+      if p != "n" then return .badop s!"recording files are written with precision n: {l}"
+      st := { st with mode := "stream", recTime := r == "1", zero := z, prec := p, file := true }
+    | ["batch", r, z, "file"] =>
+      let some z := z.toInt? | return .badop l
+      st := { st with mode := "batch", recTime := r == "1", zero := z, file := true }
     | ["pt", db, rp, name, tags, fields, time] =>
       let some p := (do
         let (fs, orc) ← parseFields fields
